@@ -528,7 +528,9 @@ def run_impl(c):
                 kw["solver"] = make_solver(c.solver)
             m = pm.SystemOfEquations([sA, s1, s2], **kw)
             if c.spec["seed"] % 2 == 0 and (np.iscomplexobj(c.bf) or np.iscomplexobj(c.xp) or np.iscomplexobj(c.A)) \
-                    and not (c.sparse and not np.iscomplexobj(c.A)):
+                    and not (c.sparse and not np.iscomplexobj(c.A)) and c.solver is None:
+                # (only with the automatic solver choice: a user-supplied solver OBJECT keeps what it detected for its first
+                #  matrix -- SolverDenseLDL's `hermitian` flag -- which is that object's documented behaviour, modelled in C05)
                 # the same instance has solved the REAL part of this problem before (same shapes, other dtype): storage kept
                 # between calls must follow the dtype of the current data
                 sA.state, s1.state, s2.state = wrap(np.real(c.A).copy(), c.sparse, c.fmt), np.real(c.bf).copy(), np.real(c.xp).copy()
